@@ -77,4 +77,15 @@ theorem never_replayed_for_different_request (H : CK.Bytes → CK.Bytes) (r₁ r
     · exact Or.inr h
   · exact Or.inl hk
 
+/-- F-C01-b (negative, kernel-checked, open) — now part of the model: `ArgsIter` cuts a concatenated value out of
+    `arg.to_string_lossy()`, so in `gcc -c a.c -DA<0xff>B` the argument that is hashed and handed to the compiler is
+    `-DA<U+FFFD>B` (three bytes `ef bf bd` instead of `ff`), while the separated spelling `-D A<0xff>B` keeps the byte. -/
+theorem lossy_concatenated_value_witness :
+    (match tokenize (search1 gccArgs) false 3 false [[45, 68, 65, 255, 66]] with
+     | [.ok (.withValue n _ val _)] => n == [45, 68] && val == [65, 239, 191, 189, 66]
+     | _ => false) = true ∧
+    (match tokenize (search1 gccArgs) false 3 false [[45, 68], [65, 255, 66]] with
+     | [.ok (.withValue n _ val _)] => n == [45, 68] && val == [65, 255, 66]
+     | _ => false) = true := by decide +kernel
+
 end C01
